@@ -1,0 +1,36 @@
+use crate::{
+    registry,
+    verif::Dump,
+    World,
+};
+use alloc::vec::Vec;
+
+impl<Registry, Resources> World<Registry, Resources>
+where
+    Registry: registry::Registry,
+{
+    /// Read-only structural dump (verification hook).
+    #[must_use]
+    pub fn verif_dump(&self) -> Dump {
+        let (archetypes, type_id_lookup, foreign_identifier_lookup) = self.archetypes.verif_dump();
+        Dump {
+            len: self.len,
+            slots: self
+                .entity_allocator
+                .slots
+                .iter()
+                .map(|slot| {
+                    (
+                        slot.generation,
+                        slot.location
+                            .map(|location| (location.identifier.verif_addr(), location.index)),
+                    )
+                })
+                .collect::<Vec<_>>(),
+            free: self.entity_allocator.free.iter().copied().collect(),
+            archetypes,
+            type_id_lookup,
+            foreign_identifier_lookup,
+        }
+    }
+}
